@@ -4,7 +4,7 @@ from ..affine import Lin, decide, entails
 from ..front import dotted, const_value, unparse, walk_no_nested, parent_map, kwarg
 from ..core import holds, violation, unrecognised
 from ..flow import AbsInt
-from ..rules import decide_states, fmt_trace, relevant_guards
+from ..rules import decide_states, fmt_trace, relevant_guards, module_state_rule
 
 ID = "C12"
 MIN_INSTANCES = 12
@@ -31,6 +31,7 @@ def run(repo, tier):
     out += strand_rules(repo)
     out += race_rules(repo)
     out += dtype_threshold_rules(repo)
+    out += module_state_rule(repo, F)
     return out
 
 
